@@ -33,7 +33,7 @@ theorem shardOfImpl_eq_spec (n : Nat) (msb : UInt8) (tok : Int64) (hm : msb.toNa
     have hu := toUInt64_toNat tok
     have hr := toInt_range tok
     omega
-  simp only []
+  simp only [hm, if_true]
   rw [UInt64.toNat_shiftLeft, hb]
   have hms : msb.toUInt64.toNat % 64 = msb.toNat := by
     simp [UInt8.toNat_toUInt64]; omega
@@ -51,11 +51,36 @@ theorem shardOfSpec_lt (n msb : Nat) (tok : Int) (hn : 0 < n) : shardOfSpec n ms
 theorem shardOfImpl_lt (n : Nat) (msb : UInt8) (tok : Int64) (hn : 0 < n) : shardOfImpl n msb tok < n := by
   unfold shardOfImpl
   simp only []
-  generalize (tok.toUInt64 + ((1 : UInt64) <<< (63 : UInt64))) <<< msb.toUInt64 = x
+  generalize (if msb.toNat < 64 then (tok.toUInt64 + ((1 : UInt64) <<< (63 : UInt64))) <<< msb.toUInt64 else 0) = x
   have hx : x.toNat < 2 ^ 64 := x.toNat_lt
   rw [Nat.div_lt_iff_lt_mul (by decide)]
   calc _ < 2 ^ 64 * n := Nat.mul_lt_mul_of_pos_right hx hn
     _ = n * 2 ^ 64 := Nat.mul_comm _ _
+
+/-- `msb_ignore >= 64` (a value `ShardInfo::new` accepts: the server's `SCYLLA_SHARDING_IGNORE_MSB` is parsed as a
+`u8` with no range test): every bit of the token is ignored, `checked_shl` answers `None`, and every token belongs to
+shard 0 - for every shard count and every token; nothing overflows. -/
+theorem shardOf_msb_ge_64 (n : Nat) (msb : UInt8) (tok : Int64) (hm : 64 ≤ msb.toNat) :
+    shardOfImpl n msb tok = 0 := by
+  unfold shardOfImpl
+  have : ¬ msb.toNat < 64 := by omega
+  simp [this]
+
+/-- The same in the words of the property's algorithm: shifting left by 64 or more bits inside a 64-bit word leaves
+nothing, so the algorithm on naturals gives 0 as well - implementation and specification agree on ALL of `u8`. -/
+theorem shardOfImpl_eq_spec_all (n : Nat) (msb : UInt8) (tok : Int64) :
+    shardOfImpl n msb tok = shardOfSpec n msb.toNat tok.toInt := by
+  by_cases hm : msb.toNat < 64
+  · exact shardOfImpl_eq_spec n msb tok hm
+  · rw [shardOf_msb_ge_64 n msb tok (by omega)]
+    unfold shardOfSpec
+    have hd : (2 : Nat) ^ 64 ∣ 2 ^ msb.toNat := Nat.pow_dvd_pow 2 (by omega)
+    have : ((tok.toInt + 2 ^ 63).toNat * 2 ^ msb.toNat) % 2 ^ 64 = 0 :=
+      Nat.mod_eq_zero_of_dvd (Nat.dvd_trans hd (Nat.dvd_mul_left _ _))
+    rw [this]; simp
+
+example : shardOfImpl 4 64 (Int64.ofInt 1) = 0 ∧ shardOfImpl 4 200 (Int64.ofInt (-5)) = 0 ∧
+    shardOfImpl 4 63 (Int64.ofInt (-5)) = 2 := by decide
 
 /-- The 128-bit product in `shard_of` never overflows `u128`. -/
 theorem product_fits_u128 (x : UInt64) (n : Nat) (hn : n < 2 ^ 16) : x.toNat * n < 2 ^ 128 := by
